@@ -93,7 +93,11 @@ func writeEvidence(prop, tier string, seed uint64, cfg tierCfg, ws *Workspace, m
 		sort.Strings(cells)
 		cov["cells"] = cells
 		cov["cells_covered"] = len(cells)
-		cov["cells_rule"] = "cell = (history shape | option kind class | subset of {cli, ini, env, default, stored} present for a judged option); at most 4 x 5 x 32 = 640"
+		cov["cells_rule"] = map[string]string{
+			"C05": "cell = (history shape | option kind class | subset of {cli, ini, env, default, stored} present for a judged option); at most 4 x 5 x 32 = 640",
+			"C12": "cell = (kind class : value class written | IniOptions)",
+			"C04": "cell = (token class present in argv | outcome class)",
+		}[prop]
 	}
 	ev := map[string]interface{}{
 		"property_id": prop,
